@@ -25,8 +25,9 @@ LEVEL_TEXT = ("Lean 4 theorems for all graphs about an executable model of inter
               "The model is tied to the code by a differential run on generated DAGs; wall time is not a mathematical object: it is measured on the "
               "real code (allocation counts and time on ladders vs chains, in process and through the CLI) with thresholds an order of magnitude away "
               "from both behaviours.")
-LEVEL_NOTE = ("Partial in the sense of DESIGN section 8: operation counts of the model are proved, real time/allocations are sampled. Output-conflict "
-              "detection (already a visited-set traversal with a cache) is only measured through `grog list/build` on the ladder, not modelled here. "
+LEVEL_NOTE = ("Partial in the sense of DESIGN section 8: operation counts of the model are proved, real time/allocations are sampled. The output-conflict "
+              "pass is modelled with its memo table (pair loops + memoised ancestor search, cost bound 3|pairs| + |V|(1+2|E|(1+|V|))); its sets are tied through an "
+              "in-package go test, its real cost is measured (allocations over graph families x output profiles); which overlaps are conflicts belongs to C11. "
               "Trusted: Lean kernel; propext/Classical.choice/Quot.sound; the correspondence harness.")
 TECHNIQUE = "Lean 4 proof of operation-count bounds over an executable model + differential correspondence + measured growth factors on the real code"
 OBLIGATIONS = [
@@ -39,6 +40,8 @@ OBLIGATIONS = [
     "Grog.C19.ladder_visited_linear",
     "Grog.C19.changes_cost_le",
     "Grog.C19.ancestor_set_cost_le",
+    "Grog.C19.conflict_pass_cost_le",
+    "Grog.C19.changes_filter_independent",
     "Grog.C19.visited_nodup",
 ]
 ASSUMPTIONS = [
@@ -76,14 +79,15 @@ def run(ctx):
     # targeted: diamonds, duplicate edges, self loop / unknown node rejected
     cases += [(4, [(0, 1), (0, 2), (1, 3), (2, 3)]), (4, [(0, 1), (0, 1), (1, 2), (1, 2), (2, 3)]),
               (3, [(0, 1), (1, 1)]), (3, [(0, 1), (1, 5)]), (1, []), (3, [(2, 1), (1, 0)])]
-    reqs = []
+    reqs, anc_reqs = [], []
     for n, es in cases:
         qs = [{"k": k, "v": v} for v in range(n) for k in ("desc", "anc", "deps", "rdeps")]
-        # getAncestorSet of the output-conflict detection, in a shuffled order with one shared memo cache per request
+        reqs.append(trav_req(n, es, qs))
+        # getAncestorSet of the output-conflict detection, in a shuffled order with one shared memo cache per graph; it is unexported and
+        # reached through an in-package test of the overlay (go test), so that renaming it costs only this sub-tie
         order = list(range(n))
         rng.shuffle(order)
-        qs += [{"k": "ancset", "v": v} for v in order]
-        reqs.append(trav_req(n, es, qs))
+        anc_reqs.append({"n": n, "edges": [list(e) for e in es], "order": order})
     # boundary sizes: fan-out / fan-in / depth around powers of two (few queries each: the model's visited list is quadratic)
     nb = 0
     for size in (G.BOUNDARY_SIZES if not quick else G.BOUNDARY_SIZES[:9] + [1025]):
@@ -115,12 +119,6 @@ def run(ctx):
         es = [tuple(e) for e in r["edges"]]
         has_diamond = False
         for q, res in zip(r["q"], a["res"]):
-            if q["k"] == "ancset":
-                exp = sorted(G.reach(es, q["v"], forward=False))
-                if res != exp:
-                    ctx.violation("getAncestorSet (output-conflict detection) does not return the set of transitive dependencies",
-                                  {"kind": "oracle", "oracle": "reachable set", "request": dict(r, q=[x for x in r["q"] if x["k"] == "ancset"]), "query": q,
-                                   "impl": res, "expected": exp}, signature="ancestor-set-wrong")
             if q["k"] in ("desc", "anc"):
                 exp = sorted(G.reach(es, q["v"], forward=(q["k"] == "desc")))
                 npaths = G.count_paths(es, q["v"], forward=(q["k"] == "desc"))
@@ -145,6 +143,8 @@ def run(ctx):
     cov["model_cost_over_bound_max"] = round(max_cost_ratio, 3)
     cov["traces_validated_against_impl"] = cov["evaluations"]
     ctx.sample({"graph.trav": {"n": cases[5][0], "edges": cases[5][1][:12]}, "impl": impl[5].get("res", [])[:4]})
+
+    anc_bad, anc_broken = ancestor_sets(ctx, anc_reqs)
 
     # ---------------- cost oracle on the real code ---------------------------------------------------
     costs = {}
@@ -194,14 +194,164 @@ def run(ctx):
                               signature="path-enumeration:" + what)
         cov["big_ladder_ns"] = big
         cov["evaluations"] += 4
+        conflict_profiles(ctx)
         cli_ladder(ctx)
+        cli_filtered(ctx)
 
-    cov["disagreements"] = len(bad_corr)
+    cov["disagreements"] = len(bad_corr) + len(anc_bad)
+    if not ctx.violations:
+        if anc_broken is not None:
+            ctx.harness_broken("the in-package harness for getAncestorSet (harness/intest/internal/analysis/zz_c19_verif_test.go) does not build or run "
+                               "against the current tree", anc_broken)
+        elif anc_bad:
+            r, x, y = min(anc_bad, key=lambda t: len(t[0]["edges"]))
+            ctx.violation("model and implementation disagree (correspondence getAncestorSet vs GrogModel.Graph.ancestorSetV)",
+                          {"kind": "correspondence", "correspondence": "getAncestorSet (shared memo cache) vs ancestorSetV", "ancset_request": r, "impl": x, "model": y,
+                           "n_disagreements": len(anc_bad)}, found_input=False)
     if bad_corr and not ctx.violations:
         r, a, b = min(bad_corr, key=lambda t: len(t[0]["edges"]))
         ctx.violation("model and implementation disagree (correspondence dag traversals vs GrogModel.Graph)",
                       {"kind": "correspondence", "correspondence": "graph.trav: dag.GetDescendants/GetAncestors/GetDependencies/GetDependants vs GrogModel.Graph",
                        "request": r, "impl": a, "model": b, "n_disagreements": len(bad_corr)}, found_input=False)
+
+
+def ancestor_sets(ctx, anc_reqs):
+    """getAncestorSet through `go test` of package analysis (in-package overlay test) vs the model's ancestorSetV and a python BFS.
+    -> (disagreements with the model, build/run failure text or None)"""
+    import json, vlib
+    d = ctx.scratch("ancset")
+    reqf, outf = os.path.join(d, "req.jsonl"), os.path.join(d, "out.jsonl")
+    with open(reqf, "w") as fh:
+        for r in anc_reqs:
+            fh.write(json.dumps(r) + "\n")
+    rc, tout = vlib.go_test("./internal/analysis/", "TestVerifC19AncestorSets$", env_extra={"C19_REQ": reqf, "C19_OUT": outf})
+    impl = [json.loads(l) for l in open(outf).read().split("\n") if l.strip()] if os.path.exists(outf) else []
+    if rc != 0 or len(impl) != len(anc_reqs):
+        return [], tout[-3000:]
+    model = ctx.model([{"op": "graph.trav", "n": r["n"], "edges": r["edges"], "q": [{"k": "ancset", "v": v} for v in r["order"]]} for r in anc_reqs])
+    bad = []
+    for r, a, b in zip(anc_reqs, impl, model):
+        if "sets" not in a:
+            if b.get("ok"):
+                bad.append((r, a, b))
+            continue
+        es = [tuple(e) for e in r["edges"]]
+        for v, got in zip(r["order"], a["sets"]):
+            exp = sorted(G.reach(es, v, forward=False))
+            ctx.coverage["evaluations"] += 1
+            if got != exp:
+                ctx.violation("getAncestorSet (output-conflict detection) does not return the set of transitive dependencies",
+                              {"kind": "oracle", "oracle": "reachable set", "ancset_request": r, "query": v, "impl": got, "expected": exp}, signature="ancestor-set-wrong")
+        if not b.get("ok") or a["sets"] != b["res"]:
+            bad.append((r, a, b))
+    ctx.coverage["ancestor_set_graphs"] = len(anc_reqs)
+    return bad, None
+
+
+CONFLICT_PROFILES = {"file": (200, 400), "dir": (200, 400), "docker": (200, 400), "multidir": (100, 200), "mixed": (100, 200)}
+
+
+def conflict_profiles(ctx):
+    """Output-conflict pass of analysis.BuildGraph: graph family (chain, ladder, dense DAG) x output profile (file outputs incl. one shared by
+    ordered targets / one dir:: output per target / several dir:: outputs / docker tags / dir+file mix) at two sizes.
+    Rule (allocations are load-independent): mallocs <= 250 N + 10 E at the larger size — measured: current code 14..26 per node
+    (an order of magnitude below), ancestor sets rebuilt per pair of outputs: 1 800..80 000 per node (one to three orders above).
+    Absolute bound: all probes of one profile within 60 s (normal: < 1 s)."""
+    table = {}
+    for profile, sizes in CONFLICT_PROFILES.items():
+        reqs = [{"op": "graph.conflicts", "shape": sh, "size": n, "profile": profile, "reps": 2} for sh in ("chain", "ladder", "dense") for n in sizes]
+        res = None
+        for attempt in range(2):          # a slow measurement is repeated once before it is reported
+            try:
+                res = ctx.impl(reqs, timeout=60)
+                break
+            except subprocess.TimeoutExpired:
+                res = None
+        ctx.coverage["evaluations"] += len(reqs)
+        if res is None:
+            ctx.violation(f"output-conflict detection with profile '{profile}' on chains/ladders/dense DAGs of <= {sizes[1]} targets did not finish within 60 s (twice)",
+                          {"kind": "oracle", "oracle": "absolute bound (conflict pass)", "request": reqs[-1], "profile": profile}, signature="conflict-pass-cost:" + profile)
+            continue
+        for rq, rs in zip(reqs, res):
+            if not rs.get("ok"):
+                ctx.violation("conflict-pass probe failed (the generated outputs are conflict-free)", {"kind": "impl-crash", "request": rq, "impl": rs}, found_input=False)
+                return
+        for sh in ("chain", "ladder", "dense"):
+            small, big = [rs for rq, rs in zip(reqs, res) if rq["shape"] == sh]
+            bound = 250 * big["nodes"] + 10 * big["edges"]
+            table[f"{profile}/{sh}"] = {"N": big["nodes"], "E": big["edges"], "records": big["records"], "mallocs": big["mallocs"], "bound": bound,
+                                        "growth_x2": round(big["mallocs"] / max(small["mallocs"], 1), 2), "ms": round(big["ns"] / 1e6, 1)}
+            if big["mallocs"] > bound:
+                ctx.violation(f"output-conflict detection: {big['mallocs']} allocations for {big['nodes']} targets / {big['records']} outputs on a {sh} "
+                              f"(profile '{profile}'): more than 250 N + 10 E = {bound}; x{big['mallocs'] / max(small['mallocs'], 1):.1f} for twice the size "
+                              "(ancestor sets are recomputed per pair of outputs)",
+                              {"kind": "oracle", "oracle": "allocations of the conflict pass <= 250 N + 10 E", "request": {"op": "graph.conflicts", "shape": sh,
+                               "size": big["nodes"], "profile": profile, "reps": 1}, "measured": table[f"{profile}/{sh}"]}, signature="conflict-pass-cost:" + profile)
+    ctx.coverage["conflict_pass_table"] = table
+
+
+def cli_filtered(ctx):
+    """Every query command with every filter on a ladder whose intermediate layers are filtered OUT (40 library layers below two tests and
+    a bin target): a traversal whose visited set depends on the filter walks 2^40 paths. Each command within CLI_BOUND (normal: 0.03 s)."""
+    grog = ctx.grog_binary()
+    if not grog:
+        return
+    L = 40
+    nodes, es = [], []
+    N = lambda name, tags, bin=False: {"pkg": "", "name": name, "target": True, "tags": tags, "platforms": [], "bin": bin}
+    for l in range(L + 1):
+        for j in (0, 1):
+            nodes.append(N(f"lib_{l}_{j}", ["lib"]))
+            if l > 0:
+                es += [(2 * (l - 1), len(nodes) - 1), (2 * (l - 1) + 1, len(nodes) - 1)]
+    tops = [("a_test", False), ("b_test", False), ("tool", True)]
+    for name, is_bin in tops:
+        nodes.append(N(name, ["top"], is_bin))
+        es += [(2 * L, len(nodes) - 1), (2 * L + 1, len(nodes) - 1)]
+    scratch = ctx.scratch("filtered")
+    ws = os.path.join(scratch, "ws")
+    G.write_workspace(ws, nodes, es, inputs={0: ["src.txt"]})
+    env = G.grog_env(scratch)
+    genv = dict(env, GIT_CONFIG_GLOBAL="/dev/null", GIT_CONFIG_SYSTEM="/dev/null", GIT_AUTHOR_NAME="v", GIT_AUTHOR_EMAIL="v@v", GIT_COMMITTER_NAME="v", GIT_COMMITTER_EMAIL="v@v")
+    have_git = all(subprocess.run(c, cwd=ws, env=genv, capture_output=True).returncode == 0 for c in (["git", "init", "-q"], ["git", "add", "-A"], ["git", "commit", "-q", "-m", "x"]))
+    if have_git:
+        with open(os.path.join(ws, "src.txt"), "a") as fh:
+            fh.write("edit\n")
+    filters = {"type=test": (["--target-type=test"], "test", [], []), "type=no_test": (["--target-type=no_test"], "no_test", [], []),
+               "type=bin_output": (["--target-type=bin_output"], "bin_output", [], []), "tag=top": (["--tag=top"], "all", ["top"], []),
+               "exclude-tag=lib": (["--exclude-tag=lib"], "all", [], ["lib"])}
+    desc0 = G.reach(es, 0, forward=True)
+    anc_top = G.reach(es, 2 * L + 2, forward=False)
+    cmds = {"rdeps-t": (["rdeps", "-t", "//:lib_0_0"], desc0, env), "deps-t": (["deps", "-t", "//:a_test"], anc_top, env),
+            "list": (["list", "//..."], set(range(len(nodes))), env)}
+    if have_git:
+        cmds["changes"] = (["changes", "--since=HEAD", "--dependents=transitive"], desc0 | {0}, genv)
+    else:
+        ctx.notes.append("git not usable in the scratch workspace: filtered `changes` not measured")
+    times, slow_kinds = {}, set()
+    for cname, (args, universe, cenv) in cmds.items():
+        for fname, (flags, typ, tags, ex) in filters.items():
+            if cname in slow_kinds:
+                continue
+            want = sorted(G.label_str(nodes[i]) for i in universe if G.ref_matches_filters(nodes[i], [], tags, ex, typ))
+            rc, out, err, dt = G.run_grog(grog, args + flags, ws, cenv, timeout=CLI_BOUND)
+            if rc == 124:        # repeat a slow measurement once before reporting
+                rc, out, err, dt = G.run_grog(grog, args + flags, ws, cenv, timeout=CLI_BOUND)
+            times[f"{cname} {fname}"] = round(dt, 2)
+            ctx.coverage["evaluations"] += 1
+            if rc == 124:
+                slow_kinds.add(cname)
+                ctx.violation(f"`grog {' '.join(args + flags)}` on a ladder of {L} filtered-out library layers did not finish within {CLI_BOUND:.0f} s (twice; normal: 0.03 s): "
+                              "the traversal depends on the filter",
+                              {"kind": "oracle", "oracle": "absolute bound (CLI, filtered ladder)", "cli": args + flags, "layers": L}, signature="filtered-ladder-bound-exceeded:" + cname)
+            elif rc != 0:
+                ctx.violation(f"`grog {' '.join(args + flags)}` failed on the filtered ladder workspace", {"kind": "correspondence", "correspondence": "CLI filtered ladder",
+                              "cli": args + flags, "rc": rc, "stderr": err[-1500:]}, found_input=False)
+            elif out != want:
+                ctx.violation(f"`grog {' '.join(args + flags)}` on the filtered ladder prints a wrong set", {"kind": "oracle", "oracle": "reference set (filtered ladder)",
+                              "cli": args + flags, "printed": out[:10], "expected": want[:10], "n_printed": len(out), "n_expected": len(want)},
+                              signature="filtered-ladder-wrong-set:" + cname)
+    ctx.coverage["cli_filtered_ladder_seconds"] = times
 
 
 def cli_ladder(ctx):
@@ -216,6 +366,8 @@ def cli_ladder(ctx):
 
     def step(name, ws, args, env, expect_rc0=True):
         rc, out, err, dt = G.run_grog(grog, args, ws, env, timeout=CLI_BOUND)
+        if rc == 124:        # repeat a slow measurement once before reporting
+            rc, out, err, dt = G.run_grog(grog, args, ws, env, timeout=CLI_BOUND)
         times[name] = round(dt, 2)
         ctx.coverage["evaluations"] += 1
         if rc == 124:
@@ -276,13 +428,17 @@ def cli_ladder(ctx):
 
 
 def replay(ctx, rep):
+    if rep.get("ancset_request"):
+        bad, broken = ancestor_sets(ctx, [rep["ancset_request"]])
+        print("getAncestorSet vs model: disagreements", bad, "harness", broken)
+        return 0
     r = rep.get("request")
     if not r:
         print("nothing to replay in this file (see 'kind'):", rep.get("what"))
         return 0
     a = ctx.impl([r], timeout=120)[0]
     print("impl :", a)
-    if r["op"] != "graph.cost":
+    if r["op"] not in ("graph.cost", "graph.conflicts"):
         print("model:", ctx.model([r])[0])
         pq = [q for q in r["q"] if q["k"] in ("desc", "anc")]
         if pq:
